@@ -565,6 +565,10 @@ func (viso *VirtualISO) writeFSStructures(gameCode string) error {
 			EndSector:   viso.volumeSizeSectors - 1,
 		}}, sectorSize)
 
+		if len(gameCode) < 4 || len(gameCode) > 31 {
+			return fmt.Errorf("unexpected TITLE_ID %q", gameCode)
+		}
+
 		infoSector := discInfoSector{
 			ConsoleID: consoleID,
 			ProductID: gameCode[:4] + "-" + gameCode[4:], // i.e. BCES-00104
